@@ -140,6 +140,9 @@ ORDER_PROGRAMS = [
     "main:\n    mv t0, a0\n    beqz t0, K\n    call F\n    sw t0, -4(sp)\nK:\n    sw t0, 0(sp)\n    li a7, 10\n    ecall\nF:\n    li a0, 1\n    ret\n",
     "main:\n    j A\nX:\n    j Y\nA:\n    j X\nY:\n    j Zz\nundefined_use:\n    j nowhere1\n    j nowhere2\nZz:\n    ret\n",
     "main:\n    call f\n    li a7, 10\n    ecall\nf:\n    beqz a0, r2\n    li a0, 1\n    ret\nr2:\n    li a0, 2\n    mv a1, t3\n    ret\n",
+    # diagnostics whose related information names a function that has several entry labels
+    "main:\n    li t0, 1\n    jal fb\n    add a0, t0, a0\n    j fb2\nfb:\nfb2:\nfb3:\nfb4:\n    li t0, 2\n    ret\n",
+    "main:\n    li t1, 1\n    jal zz\n    jal aa\n    add a0, t1, a0\n    li a7, 10\n    ecall\nzz:\naa:\nmm:\nbb:\nyy:\n    li t1, 2\n    ret\n",
 ]
 ORDER_PROGRAMS = [p for p in ORDER_PROGRAMS if p]
 
@@ -157,6 +160,22 @@ EXIT_PROGRAMS = [
     "main:\n    li a7, 10\n    li a0, 3\nspin:\n    addi a0, a0, -1\n    bnez a0, spin\n    ecall\nafter:\n    li t0, 1\n    j after\n",
     "main:\n    li a7, 1\n    li a0, 5\n    ecall\n    li a7, 10\n    beqz a0, out\n    li a7, 10\nout:\n    ecall\ntail:\n    nop\n",
 ]
+
+
+def exit_chain(k):
+    """k exit ecalls in a row; the i-th is recognisable only after the edge behind the (i-1)-th has been cut"""
+    regs = ["a0", "a1", "a2", "a3", "a4", "a5", "a6"]
+    s = "main:\n" + "".join("    beqz %s, L%d\n" % (regs[i], i + 1) for i in range(k - 1))
+    s += "    li a7, 10\n    ecall\n" + "".join("E%d:\n    ecall\n" % (i + 2) for i in range(k - 1))
+    s += "    addi t0, t0, 1\n    li a7, 10\n    ecall\n"
+    s += "".join("L%d:\n    li a7, 93\n    j E%d\n" % (i + 1, i + 2) for i in range(k - 1))
+    return s
+
+
+EXIT_PROGRAMS += [exit_chain(k) for k in (4, 5, 7)]
+# the same chain inside a called function, another function behind it
+EXIT_PROGRAMS += ["start:\n    jal main\n    jal g\n    li a7, 10\n    ecall\n" + exit_chain(k).replace("main:\n", "main:\n    bnez a6, R\n") + "R:\n    ret\n" + "g:\n    addi a0, a0, 1\n    ret\n" for k in (3, 5)]
+
 # merges with different stack pointers, frame pointers, stores through an sp of unknown offset, sub-word neighbours
 STACK_PROGRAMS = [
     # inside a function (saved registers have a known entry value there)
@@ -218,4 +237,8 @@ SHARED_PROGRAMS = [
     "main:\n    call f\n    li a7, 10\n    ecall\nf:\n    beqz a0, f_zero\n    bltz a0, f_neg\n    li a0, 1\n    ret\nf_zero:\n    li a0, 0\n    ret\nf_neg:\n    li a0, -1\n    ret\n",
     "main:\n    call f\n    call g\n    li a7, 10\n    ecall\nf:\n    bnez a0, f_other\n    li a0, 5\n    ret\nf_other:\n    li a0, 6\n    ret\ng:\n    beqz a0, f_other\n    li a0, 7\n    ret\n",
     "main:\n    call a\n    call b\n    call c\n    li a7, 10\n    ecall\na:\n    li a0, 1\n    j ab\nb:\n    li a0, 2\nab:\n    addi a0, a0, 1\n    beqz a0, abc\n    ret\nc:\n    li a0, 3\nabc:\n    addi a0, a0, 2\n    ret\n",
+    # directives between a label and its first instruction; data labels next to code labels
+    "main:\n    jal f\n    jal g\n    li a7, 10\n    ecall\nf:\n    .align 2\n    addi a0, a0, 1\n    ret\n.data\nbuf: .word 1\n.text\ng:\n    addi a0, a0, 2\n    ret\n",
+    "main:\n    la t0, handler\n    csrrw zero, 5, t0\n    jal f\n    li a7, 10\n    ecall\nhandler:\n    .align 4\n    csrrw t0, 64, t0\n    csrrw t0, 64, t0\n    uret\n.data\nmsg: .asciz \"hi\"\n.text\nf:\n.globl f\n    li a0, 1\n    ret\n",
+    "main:\n    jal f\n    li a7, 10\n    ecall\n.data\nd1: .word 1\nd2: .space 8\n.text\n.align 2\nf:\n.align 2\nf2:\n    beqz a0, f2\n    ret\n",
 ]
